@@ -42,6 +42,8 @@ pub struct Case {
     pub menu: Vec<MenuItem>,
     /// what a driver that does not override write_input answers to a mid-clock call
     pub mid: Step,
+    /// environment choices at a write-only / mid-clock call (default: just `mid`)
+    pub w_menu: Vec<MenuItem>,
     pub extra_known: Vec<Sig>,
     pub dev_budget: u8,
     /// continue after an error item that was produced after its driver call was made
@@ -57,11 +59,12 @@ impl Case {
             Err(e) => (None, Some(e)),
         };
         let mid: Answer = sigs.iter().filter(|s| s.is_out()).map(|s| (s.name.clone(), V::Num(3))).collect();
-        Case { name: name.into(), prog, text, sigs, ov, tc, load_error, init_menu, menu, mid: Step::Ans(mid), extra_known: vec![], dev_budget: 0, continue_after_call_errors: false, max_depth }
+        Case { name: name.into(), prog, text, sigs, ov, tc, load_error, init_menu, menu, mid: Step::Ans(mid), w_menu: vec![], extra_known: vec![], dev_budget: 0, continue_after_call_errors: false, max_depth }
     }
 }
 
 const MID: u16 = u16::MAX;
+const W_BASE: u16 = 60000;
 
 #[derive(Clone, Copy, Debug, PartialEq, Eq, Hash)]
 pub enum Next {
@@ -114,6 +117,8 @@ pub struct Seen<'a> {
     pub item: Option<usize>,
     /// the reference says the run has ended and this next() is a call after the end
     pub after_end: bool,
+    /// index of the call (0 = constructor) that carries the fault / layout deviation, if any
+    pub deviation_call: Option<usize>,
 }
 
 pub type Oracle = Arc<dyn Fn(&Seen<'_>, &mut Stats) -> Option<(String, String)> + Send + Sync>;
@@ -140,6 +145,8 @@ impl E1Model {
             .map(|(k, &i)| {
                 if i == MID {
                     case.mid.clone()
+                } else if i >= W_BASE {
+                    case.w_menu[(i - W_BASE) as usize].step.clone()
                 } else if k == 0 {
                     case.init_menu[i as usize].step.clone()
                 } else {
@@ -179,7 +186,16 @@ impl Model for E1Model {
         }
         match s.next {
             Next::Terminal => {}
-            Next::Plain | Next::WriteOnly => out.push(Act::Step),
+            Next::Plain => out.push(Act::Step),
+            Next::WriteOnly => {
+                out.push(Act::Step);
+                for (i, m) in case.w_menu.iter().enumerate() {
+                    if m.deviation && s.devs >= case.dev_budget {
+                        continue;
+                    }
+                    out.push(Act::Answer(W_BASE + i as u16));
+                }
+            }
             Next::Answers => {
                 let menu = if s.constructed { &case.menu } else { &case.init_menu };
                 for (i, m) in menu.iter().enumerate() {
@@ -205,6 +221,12 @@ impl Model for E1Model {
                 script.push(*i);
             }
             (Act::Step, Next::WriteOnly) => script.push(MID),
+            (Act::Answer(i), Next::WriteOnly) => {
+                if case.w_menu[(*i - W_BASE) as usize].deviation {
+                    devs += 1;
+                }
+                script.push(*i);
+            }
             (Act::Step, Next::Plain) => {}
             _ => return None,
         }
@@ -224,7 +246,18 @@ impl Model for E1Model {
         };
         let item = if s.constructed { Some(s.steps as usize) } else { None };
         let after_end_call = s.constructed && r.end == RefEnd::Done && s.steps as usize >= r.items.len();
-        let seen = Seen { case, script: &steps_list, reference: &r, obs: &obs, item, after_end: after_end_call && s.steps as usize > r.items.len() };
+        let deviation_call = script.iter().enumerate().position(|(k, &i)| {
+            if i == MID {
+                false
+            } else if i >= W_BASE {
+                case.w_menu[(i - W_BASE) as usize].deviation
+            } else if k == 0 {
+                case.init_menu[i as usize].deviation
+            } else {
+                case.menu[i as usize].deviation
+            }
+        });
+        let seen = Seen { case, script: &steps_list, reference: &r, obs: &obs, item, after_end: after_end_call && s.steps as usize > r.items.len(), deviation_call };
         let verdict = self.with_stats(|st| {
             st.transitions += 1;
             st.traces += 1;
